@@ -163,10 +163,10 @@ func apply(c wazero.RuntimeConfig, p Point) wazero.RuntimeConfig {
 	return c
 }
 
-func ctxFor(p Point, m *wasmgen.Module, calls *int64) context.Context {
+func ctxFor(p Point, m, lib *wasmgen.Module, calls *int64) context.Context {
 	ctx := context.Background()
 	if p.Allocator != "" {
-		ctx = experimental.WithMemoryAllocator(ctx, allocator(p.Allocator, m.MemShared))
+		ctx = experimental.WithMemoryAllocator(ctx, allocator(p.Allocator, m.MemShared || (lib != nil && lib.MemShared))) // one allocator serves every memory of the runtime
 	}
 	if p.Listeners != "" {
 		ctx = experimental.WithFunctionListenerFactory(ctx, nopListener{n: calls, nilOnly: p.Listeners == "nil"})
@@ -207,7 +207,7 @@ func RunCase(c *Case) (msg string, labels []string) {
 		var calls int64
 		cfg := apply(baseCfg(c.Engine, feats, c.Limit), p)
 		o := opt
-		o.Ctx = ctxFor(p, c.Module, &calls)
+		o.Ctx = ctxFor(p, c.Module, c.Lib, &calls)
 		ctx := context.Background()
 		switch p.Cache {
 		case "none":
